@@ -137,6 +137,11 @@ def released(key_old, sb_old):
 
 def owner_insts(tier):
     out = []
+    # base case of the owner invariant: a default-constructed owner is inert (every field, whatever the storage held before)
+    cl = [('a_fresh_owner_is_inert', '__CPROVER_ensures($ret.callback == 0 && $ret.sandbox == 0 && $ret.key == 0 && $ret.callback_trampoline == 0 && $ret.callback_interceptor == 0)'),
+          ('frame', '__CPROVER_assigns()')]
+    out.append(Inst('c13_owner_default_constructor', '', 'sandbox_callback<int (*)(long), vsbx> c; (void)c;', cl, '  struct %s c = $ROOT();\n' % CB, leaves=[], prop=PROP,
+                    root_name='sandbox_callback', tier=tier, pre=OG, root_pick=lambda tu, fn: find_func(tu, 'sandbox_callback', CBT, lambda f, rn: f['type']['qualType'].startswith('void ()'))))
     OC, OK_, OS = '__CPROVER_old($this->callback)', '__CPROVER_old($this->key)', '__CPROVER_old($this->sandbox)'
     inert = '($this->callback == 0 && $this->sandbox == 0 && $this->key == 0 && $this->callback_trampoline == 0 && $this->callback_interceptor == 0)'
     for form in ('unregister', 'destructor'):
@@ -173,6 +178,16 @@ def owner_insts(tier):
     out.append(Inst('c13_owner_move_assign', 'sandbox_callback<int (*)(long), vsbx>& c, sandbox_callback<int (*)(long), vsbx>& d', 'c = std::move(d);', cl,
                     OWNER_H + '  struct %s d;\n  $ROOT(&c, &d);\n' % CB, leaves=['dynamic_check', UNREG_LEAF], prop=PROP, root_name='operator=', tier=tier, pre=OG,
                     replay={'kind': 'callback_move_assign', 'no_inputs': True}))
+    # what the sandbox is handed for a callback (argument of an invocation, store into a function-pointer field): the entry point the
+    # backend issued at registration, as issued - never run through a pointer translation (it is not an address in sandbox memory)
+    no_swz = ('pointer translation(must not be applied to an entry point)', lambda fn, rec: fn.get('name') in ('get_sandboxed_pointer', 'get_sandboxed_pointer_no_ctx', 'impl_get_sandboxed_pointer'),
+              '__CPROVER_requires(0) /*@an_entry_point_is_not_run_through_a_pointer_translation*/\n__CPROVER_ensures(1)\n__CPROVER_assigns()')
+    cl = [('obj', '__CPROVER_requires(__CPROVER_r_ok($this, sizeof(struct %s)))' % CB),
+          ('the_entry_point_as_issued_by_the_backend', '__CPROVER_ensures((unsigned long)$ret == (unsigned long)$this->callback_trampoline)'),
+          ('frame', '__CPROVER_assigns()')]
+    pick = lambda tu, fn: find_func(tu, 'UNSAFE_sandboxed', CBT)
+    out.append(Inst('c13_owner_hands_the_sandbox_its_entry_point', 'sandbox_callback<int (*)(long), vsbx>& c, rlbox_sandbox<vsbx>& s', 'c.UNSAFE_sandboxed(s);', cl,
+                    OWNER_H + '  struct %s sb;\n  unsigned int r = $ROOT(&c, &sb);\n' % SB, leaves=['dynamic_check', no_swz], prop=PROP, root_name='UNSAFE_sandboxed', tier=tier, pre=OG, root_pick=pick))
     return out
 
 
@@ -194,6 +209,20 @@ def destroy_keeps_registrations_inst(tier):
     return it
 
 
+def reset_keeps_registrations_inst(tier):
+    """reset_sandbox is not one of the four registry operations: it changes nothing of the core's own state (frame: nothing), in
+    particular the keys stay with their owners"""
+    cl = [('obj', '__CPROVER_requires(__CPROVER_rw_ok($this, sizeof(struct %s)))' % SB),
+          ('keys_env', '__CPROVER_requires(%s.len <= 2 && %s.cap == 4 && __CPROVER_rw_ok(%s.elem, 4 * sizeof(void *)))' % (K, K, K)),
+          ('registrations_stay_with_their_owners', '__CPROVER_ensures(%s.len == __CPROVER_old(%s.len) && (0 < %s.len ==> %s.elem[0] == __CPROVER_old(%s.elem[0])) && (1 < %s.len ==> %s.elem[1] == __CPROVER_old(%s.elem[1])))' % ((K,) * 8)),
+          ('backend_reset_once', '__CPROVER_ensures(g_be_regs == 1)'),
+          ('frame_nothing_of_the_cores_state', '__CPROVER_assigns(g_be_regs)')]
+    be = ('backend impl_reset_sandbox(stub)', _is('impl_reset_sandbox'), '__CPROVER_ensures(g_be_regs == __CPROVER_old(g_be_regs) + 1)\n__CPROVER_assigns(g_be_regs)')
+    h = ('  struct %s sb;\n' % SB + KEYS_ENV + '  g_be_regs = 0;\n  $ROOT(&sb);\n')
+    return Inst('c13_reset_sandbox_keeps_registrations', 'rlbox_sandbox<vsbx>& s', 's.reset_sandbox();', cl, h, leaves=['dynamic_check', be], prop=PROP,
+                root_name='reset_sandbox', tier=tier, pre=GH, facts=FACTS)
+
+
 def backend_entry_point_inst(tier):
     """A_backend clause used by register_callback's stub, discharged for the verification backend itself: a registration
     yields a non-zero entry point (the bundled no-op and dylib backends: C12, full_table_is_refused_never_entry_point_0)"""
@@ -205,7 +234,7 @@ def backend_entry_point_inst(tier):
 
 
 def units(tier):
-    return [Unit('C13_callback_ownership', [register_inst(tier), register_refused_inst(tier), unregister_cb_inst(tier), destroy_keeps_registrations_inst(tier), backend_entry_point_inst(tier)] + owner_insts(tier) +
+    return [Unit('C13_callback_ownership', [register_inst(tier), register_refused_inst(tier), unregister_cb_inst(tier), destroy_keeps_registrations_inst(tier), reset_keeps_registrations_inst(tier), backend_entry_point_inst(tier)] + owner_insts(tier) +
                  [trait_inst('c13_owner_is_not_copyable', PROP, 'std::is_copy_constructible_v<sandbox_callback<int (*)(long), vsbx>> || std::is_copy_assignable_v<sandbox_callback<int (*)(long), vsbx>>', 0,
                              'a_registration_owner_cannot_be_copied', tier)])]
 
@@ -219,5 +248,5 @@ ASSUMPTIONS = [
 TRUSTED = ['destructor of sandbox_callback is verified as a function; that C++ runs it exactly once when the owner dies is a language guarantee']
 MANIFEST = {
     'level_text': 'Ownership invariant proof: register_callback is proved to abort unless the sandbox is CREATED and the function is not yet registered, to record the key exactly once (other keys unchanged), to register with the backend once and to return an owner object describing exactly that registration; unregister_callback is proved harmless after destroy_sandbox, to abort for a key that was never registered, and otherwise to remove exactly that key and to unregister it with the backend once; the owner object is proved to end its registration on unregister/destruction exactly once, to transfer ownership on move construction and move assignment leaving the source inert, and to end the registration of an overwritten live owner. Each contract preserves the invariant (keys distinct; registered keys = live owners), so it holds after every history.',
-    'level_note': 'Environment restricted to at most two other registered keys per sandbox (enumerated positions; quantified vector contracts did not discharge on any back end - DESIGN.md). Fixed findings: bundled backends returned entry point 0 when full; move-assignment onto a live owner.',
+    'level_note': 'Environment restricted to at most two other registered keys per sandbox (enumerated positions; quantified vector contracts did not discharge on any back end - DESIGN.md). Fixed findings: bundled backends returned entry point 0 when full; move-assignment onto a live owner. A registration refused by the backend (modelled as an exception, L-throw) is proved to leave the key list unchanged (defect 253b285 repaired); default-constructed owners are inert; owners are not copyable (type traits of the real classes); reset_sandbox changes nothing of the registry; the entry point handed to the sandbox for a callback is the one the backend issued, requested for the guest signature.',
 }
